@@ -302,8 +302,9 @@ func (g Gate) enforcesBool(h *ssa.Function, ri0 int) (bool, bool) {
 					bypass = true
 				}
 			} else if _, isConst := ret.Results[ri0].(*ssa.Const); !isConst {
-				// a computed answer (`return a || b`): it must imply the check whenever it is val
-				if gg.impliedBy(ret.Results[ri0], val, h, 1) {
+				// a computed answer (`return a || b`): either the return itself lies behind the
+				// pass edge, or the answer must imply the check whenever it is val
+				if !r.Reachable(ret) || gg.impliedBy(ret.Results[ri0], val, h, 1) {
 					n++
 				} else {
 					bypass = true
